@@ -300,6 +300,12 @@ def instantiate(apps, limit=4000):
     lg = apps.get("log", [])
     pw = apps.get("pow", [])
     er = apps.get("erf", [])
+    e1 = apps.get("exp1", [])
+    for ((a,), ea) in e1:
+        out.append(z3.Implies(a > 0, ea > 0))
+    for ((a,), ea), ((b,), eb) in combinations(e1, 2):
+        out.append(z3.Implies(z3.And(a > 0, a < b), ea > eb))
+        out.append(z3.Implies(z3.And(b > 0, b < a), eb > ea))
     nc = apps.get("ncdf", [])
     for (a,), ea in ex:
         pass
